@@ -17,14 +17,18 @@ def run(ctx):
         "encryption on the wire is observed independently of the reported cipher: the bytes written after the handshake are searched in the raw transport",
         "a failing endpoint closes its connection (as btconn does); peers of the policy matrix are scripted (plaintext-only, MSE-only, both; selection policies; truncating step 4)"]
     # ---- 1. design level
-    ctx.tlc_mc("MC_MSE", "MC_MSE.cfg", timeout=900)
-    ctx.tlc_mc("MC_MSE", "MC_MSE_neg.cfg", timeout=900)
-    ctx.tlc_mc("MC_MSE", "MC_MSE_policy.cfg", timeout=900)
+    # one run: pads x first-read sizes, negotiation x keys x payloads (also against a hostile receiver), policy matrix
+    _, pout = ctx.tlc_mc("MC_MSE", "MC_MSE.cfg", timeout=900)
     if not ctx.quick():
-        ctx.tlc_mc("MC_MSE", "MC_MSE_full.cfg", timeout=1800)
-    # ---- 2. specification -> implementation: the policy matrix is enumerated by TLC and replayed into btconn
-    scen, _ = ctx.tlc_gen("MC_MSE", "MC_MSE_gen.cfg", timeout=300)
-    if len(scen) < 100:
+        ctx.tlc_mc("MC_MSE", "MC_MSE_full.cfg", timeout=2400)
+    # ---- 2. specification -> implementation: the policy matrix enumerated by TLC (printed by MCInit of the policy
+    #         configuration) is replayed into the real btconn
+    scen = []
+    for line in pout.splitlines():
+        line = line.strip()
+        if line.startswith('"@@'):
+            scen.append(json.loads(json.loads(line)[2:]))
+    if len(scen) < 60:
         raise vlib.MachineryError("policy matrix generator produced only %d scenarios" % len(scen))
     sp = ctx.path("scen.ndjson")
     vlib.write_ndjson(sp, scen)
@@ -63,22 +67,20 @@ def run(ctx):
     if bad:
         raise vlib.MachineryError("pad steering failed (hook order?) for %s" % json.dumps(bad[0]))
     # judge: policy lines in small groups (known findings cost one re-run each), handshakes in chunks
+    allv = pol_lines + hs_lines
     k = 0
-    for i in range(0, len(pol_lines), 200):
-        judge(ctx, pol_lines[i:i + 200], "pol%d" % k)
-        k += 1
-    for i in range(0, len(hs_lines), HS_CHUNK):
-        judge(ctx, hs_lines[i:i + HS_CHUNK], "hs%d" % k)
+    for i in range(0, len(allv), HS_CHUNK):
+        judge(ctx, allv[i:i + HS_CHUNK], "tr%d" % k)
         k += 1
 
 
 def hs_key(e):
     return ("HS", e["padA"], e["padB"], e["padC"], e["padD"], e["chA"], e["chB"], e["frA"], e["frB"], e["ia"], e["provide"],
-            e["selpol"], e["keymode"], e["ra"], e["rb"], e["ca"], e["cb"])
+            e["selpol"], e["keymode"], e["loose"], e["ra"], e["rb"], e["ca"], e["cb"])
 
 
 def pol_key(e):
-    return ("POL", e["dk"], e["enable"], e["force"], e["provide"], e["ck"], e["forceIn"], e["selpol"], e["keymode"], e["trunc"],
+    return ("POL", e["dk"], e["enable"], e["force"], e["provide"], e["ck"], e["forceIn"], e["selpol"], e["keymode"], e["trunc"], e["loose"],
             e["padA"], e["padB"], e["padC"], e["padD"], e["ra"], e["ca"], e["rb"], e["cb"], e["natt"])
 
 
@@ -124,12 +126,12 @@ def account(ctx, hs, pol):
 
 def signature(tag, e):
     if e["op"] == "POL":
-        return ("tag=%s op=POL dk=%s enable=%d force=%d provide=%d ck=%s forceIn=%d selpol=%s keymode=%s trunc=%d natt=%d ra=%s ca=%d rb=%s cb=%d"
-                % (tag, e["dk"], e["enable"], e["force"], e["provide"], e["ck"], e["forceIn"], e["selpol"], e["keymode"], e["trunc"],
+        return ("tag=%s op=POL dk=%s enable=%d force=%d provide=%d ck=%s forceIn=%d selpol=%s keymode=%s loose=%d trunc=%d natt=%d ra=%s ca=%d rb=%s cb=%d"
+                % (tag, e["dk"], e["enable"], e["force"], e["provide"], e["ck"], e["forceIn"], e["selpol"], e["keymode"], e["loose"], e["trunc"],
                    e["natt"], e["ra"], e["ca"], e["rb"], e["cb"]))
-    return ("tag=%s op=HS pads=%d,%d,%d,%d fr=%d,%d ch=%s,%s ia=%d provide=%d selpol=%s keymode=%s ra=%s ca=%d rb=%s cb=%d"
+    return ("tag=%s op=HS pads=%d,%d,%d,%d fr=%d,%d ch=%s,%s ia=%d provide=%d selpol=%s keymode=%s loose=%d ra=%s ca=%d rb=%s cb=%d"
             % (tag, e["padA"], e["padB"], e["padC"], e["padD"], e["frA"], e["frB"], e["chA"], e["chB"], e["ia"], e["provide"],
-               e["selpol"], e["keymode"], e["ra"], e["ca"], e["rb"], e["cb"]))
+               e["selpol"], e["keymode"], e["loose"], e["ra"], e["ca"], e["rb"], e["cb"]))
 
 
 def judge(ctx, lines, name):
